@@ -327,3 +327,253 @@ Proof.
   - intros x Hx. apply in_or_app. right. exact Hx.
   - apply incl_refl.
 Qed.
+
+(* ------------------------------------------------------------------ writePtr: the list copy *)
+Lemma xlist_copy f : X_cs f -> forall w objs pads q src w' L0 N,
+  tinv w objs pads -> In q ((0, 0) :: flat_map slots objs) ->
+  p_valid src = true -> p_kind src = KList -> In (core src) objs ->
+  CL (w_dst w) objs pads L0 N -> le_len L0 (w_dst w) ->
+  write_ptr (S f) true w (fst q) (snd q) InDst src true = Ok w' -> nsegs (w_dst w') < B32 ->
+  exists h eo ep, tinv w' (objs ++ h :: eo) (pads ++ ep) /\ fresh_target w w' q h /\
+    CL (w_dst w') (objs ++ h :: eo) (pads ++ ep) L0 (N ++ h :: eo) /\ freshL (lenf (w_dst w)) (h :: eo) /\
+    slot_ok (bm_data (w_dst w')) (pads ++ ep) [h] q.
+Proof.
+  intros QC w objs pads q src w' L0 N [H C] Hq Hv Ek Hin C0 LE HW Hb. unfold B32 in *.
+  destruct (core_facts src) as (C1 & C2 & C3 & C4 & C5 & C6 & C7).
+  destruct (list_obj_facts _ _ _ _ H Hin ltac:(cbn [core p_kind]; exact Ek)) as (Sz & Wf & Fc & Fs).
+  rewrite C6 in Sz, Fc. cbn [core p_comp p_len p_off p_size p_bit] in Wf, Fc, Fs. rewrite C3 in Fs.
+  change (wc_of (core src)) with (wc_of src) in Fc.
+  assert (OB : obj_bytes src = list_allocSize src) by (unfold obj_bytes; now rewrite Ek).
+  rewrite OB in Sz, Fc. set (sz := list_allocSize src) in *.
+  destruct (hi_good _ _ _ H _ Hin) as [_ Gd]. pose proof Gd as (Sh & _ & Gi & _). apply (proj1 C7) in Sh.
+  pose proof (hi_tags _ _ _ H _ Hin) as Tg.
+  destruct (obj_bounds _ _ _ _ H Hin) as (B1 & B2 & B3 & B4 & B5). rewrite C5 in B2, B3, B4. rewrite C1 in B4. cbn [core p_seg p_off] in B1, B3, B4, B5.
+  assert (RS : r_size (obj_reg src) = padToWord sz) by (unfold obj_reg; cbn [r_size]; now rewrite OB).
+  rewrite RS in B4.
+  destruct (slot_geometry _ _ _ _ H Hq) as (Q1 & Q2 & Q3 & Q4 & _).
+  pose proof (hi_inv _ _ _ H) as Hinv.
+  unfold write_ptr in HW. cbn [write_ptr_gen] in HW. rewrite Hv, Ek in HW. cbn [negb orb bind] in HW. fold sz in HW.
+  destruct (alloc (w_dst w) (fst q) sz) as [[[m1 nsid] naddr]| |] eqn:EA; cbn [bind] in HW; try discriminate.
+  destruct (alloc_keeps _ _ _ _ _ _ Hinv Q1 (proj1 Sz) EA) as (K1 & I1 & N1 & S1 & AD & L1 & _ & _ & _ & MX).
+  unfold maxSegmentSize in MX. pose proof (zlen_nonneg (mem (w_dst w) nsid)) as Z0.
+  pose proof (padToWord_nonneg sz) as PZ.
+  set (dl0 := fun (cb : bool) (doff : Z) => mkPtr true nsid doff (p_len src) (p_size src) maxDepth KList cb (p_bit src) false).
+  set (I := fun wa : world => inv (w_dst wa) /\ 0 <= nsid < nsegs (w_dst wa)).
+  (* what follows the creation of the new list object *)
+  assert (Tail : forall cb w2 doff sz' w3, cb = p_comp src -> let dl := dl0 cb in
+     (nsegs (w_dst w2) < 4294967296 -> tinv w2 (objs ++ [core (dl doff)]) pads) ->
+     (nsegs (w_dst w2) < 4294967296 -> CL (w_dst w2) (objs ++ [core (dl doff)]) pads L0 (N ++ [core (dl doff)])) ->
+     I w2 -> nsegs (w_dst w) <= nsegs (w_dst w2) ->
+     (forall i, 0 <= i -> zlen (mem (w_dst w) i) <= zlen (mem (w_dst w2) i)) ->
+     0 <= sz' -> doff + sz' <= obj_start (dl doff) + padToWord sz -> p_off src + sz' <= zlen (mem (w_dst w) (p_seg src)) ->
+     obj_start (dl doff) = naddr -> obj_start (dl doff) <= doff -> 0 <= doff <= 4294967288 ->
+     (if p_bit src || (PointerCount (p_size src) =? 0)
+      then copy_bytes w2 InDst (p_seg src) (p_off src) nsid doff sz'
+      else fold_res (iota (Z.to_nat (list_len src))) w2
+             (fun wa i => do de <- list_struct true (dl doff) i; do se <- list_struct true src i;
+                          copy_struct_gen true f true wa de InDst se)) = Ok w3 ->
+     (do raw <- list_raw (dl doff); place w3 (fst q) (snd q) nsid naddr raw) = Ok w' ->
+     exists h eo ep, tinv w' (objs ++ h :: eo) (pads ++ ep) /\ fresh_target w w' q h /\
+       CL (w_dst w') (objs ++ h :: eo) (pads ++ ep) L0 (N ++ h :: eo) /\ freshL (lenf (w_dst w)) (h :: eo) /\
+       slot_ok (bm_data (w_dst w')) (pads ++ ep) [h] q).
+  { intros cb w2 doff sz' w3 Ecb dl T2 CLp0 I2 N02 Lm Hs0 Hrd Hrs Eos Hod Hdo E3 EP. subst cb.
+    set (cd := core (dl doff)) in *.
+    set (estep := fun (wa : world) (i : Z) => do de <- list_struct true (dl doff) i; do se <- list_struct true src i;
+                                               copy_struct_gen true f true wa de InDst se) in *.
+    destruct (list_raw (dl doff)) as [raw| |] eqn:ER; cbn [bind] in EP; try discriminate.
+    (* frame of one element step *)
+    assert (Fe' : forall wa i wb, I wa -> estep wa i = Ok wb ->
+              (I wb /\ nsegs (w_dst wa) <= nsegs (w_dst wb)) /\ forall k, 0 <= k -> zlen (mem (w_dst wa) k) <= zlen (mem (w_dst wb) k)).
+    { intros wa i wb [Ia Ra] E. unfold estep in E.
+      destruct (list_struct true (dl doff) i) as [de| |] eqn:ED; cbn [bind] in E; try discriminate.
+      destruct (list_struct true src i) as [se| |] eqn:ESe; cbn [bind] in E; try discriminate.
+      destruct (p_valid de) eqn:Vde.
+      2:{ destruct f; cbn [copy_struct_gen] in E; [discriminate|]. rewrite Vde in E. discriminate. }
+      destruct (list_struct_facts _ _ _ ED Vde) as (F1 & F2 & F3 & _). unfold dl, dl0 in F1, F2, F3. cbn [p_seg p_size p_off] in F1, F2, F3.
+      destruct (frame_all true f) as [_ FC].
+      assert (Wde : wf_size (p_size de)) by (rewrite F2; exact Wf).
+      assert (Rde : 0 <= p_seg de < nsegs (w_dst wa)) by (rewrite F1; exact Ra).
+      assert (Ode : 0 <= p_off de <= 4294967295) by lia.
+      assert (Sse : sz_ok se).
+      { intros Vse. destruct (list_struct_facts _ _ _ ESe Vse) as (_ & X & _). rewrite X. exact Wf. }
+      destruct (FC true wa de InDst se wb Ia Rde Wde Ode Sse E) as (Kab & Ib & Nb & _).
+      split; [split; [split; [exact Ib|lia]|exact Nb]|]. intros k Hk. apply (proj1 Kab k Hk). }
+    assert (Fe : forall wa i wb, In i (iota (Z.to_nat (list_len src))) -> I wa -> estep wa i = Ok wb -> I wb /\ nsegs (w_dst wa) <= nsegs (w_dst wb)).
+    { intros wa i wb _ Ia E. exact (proj1 (Fe' wa i wb Ia E)). }
+    (* frame of the middle part, then the bounds *)
+    assert (M3 : I w3 /\ nsegs (w_dst w2) <= nsegs (w_dst w3)).
+    { destruct (p_bit src || (PointerCount (p_size src) =? 0)) eqn:EBP.
+      - unfold copy_bytes in E3. destruct (slice _ _ _) as [b| |] eqn:ES; cbn [bind] in E3; try discriminate.
+        unfold lift0 in E3. destruct (seg_write (w_dst w2) nsid doff b) as [m3| |] eqn:EW; cbn [bind] in E3; try discriminate.
+        apply Ok_inj in E3. subst w3. destruct I2 as [Ia Ra].
+        apply seg_write_wrote in EW; [|lia|apply (slice_len _ _ _ _ ES)].
+        assert (Nm3 : nsegs m3 = nsegs (w_dst w2)) by (unfold nsegs; apply (wrote_nsegs _ _ _ _ _ EW)).
+        unfold I. cbn [w_dst w_set_dst]. split; [split; [apply (wrote_inv _ _ _ _ _ EW); [lia|exact Ia]|lia]|lia].
+      - apply (fold_mono I (iota (Z.to_nat (list_len src))) estep) with (wa := w2); auto. }
+    destruct M3 as [[I3 R3] N23].
+    destruct (place_keeps w3 (fst q) (snd q) nsid naddr raw w' I3 ltac:(lia) R3 EP) as (_ & _ & N3' & _).
+    destruct (T2 ltac:(lia)) as [H2 Cc2].
+    assert (CLp := CLp0 ltac:(lia)).
+    assert (Hcd : In cd (objs ++ [cd])) by (apply in_or_app; right; left; reflexivity).
+    assert (ROcd : r_size (obj_reg cd) = padToWord sz).
+    { unfold obj_reg, obj_bytes, cd, core, dl, dl0. cbn [r_size p_kind]. unfold list_allocSize. cbn [p_valid p_bit p_size p_len p_comp negb].
+      unfold sz, list_allocSize. rewrite Hv. reflexivity. }
+    (* data or elements *)
+    assert (T3 : exists eo ep, tinv w3 ((objs ++ [cd]) ++ eo) (pads ++ ep) /\
+                   CL (w_dst w3) ((objs ++ [cd]) ++ eo) (pads ++ ep) L0 ((N ++ [cd]) ++ eo) /\ freshL (lenf (w_dst w2)) eo).
+    { destruct (p_bit src || (PointerCount (p_size src) =? 0)) eqn:EBP.
+      - unfold copy_bytes in E3. cbn [w_segs] in E3. rewrite nth_bm_data in E3.
+        pose proof (hi_small _ _ _ H2 (p_seg src)) as SmS. unfold maxSegmentSize in SmS.
+        pose proof (Lm (p_seg src) ltac:(lia)) as LmS.
+        rewrite (slice_ok (mem (w_dst w2) (p_seg src)) (p_off src) sz') in E3 by lia. cbn [bind] in E3.
+        set (b := sub (mem (w_dst w2) (p_seg src)) (p_off src) sz') in *.
+        assert (Lb : zlen b = sz') by (apply sub_length; lia).
+        unfold lift0 in E3. destruct (seg_write (w_dst w2) nsid doff b) as [m3| |] eqn:EW; cbn [bind] in E3; try discriminate.
+        apply Ok_inj in E3. subst w3. apply seg_write_wrote in EW; [|lia|lia].
+        assert (SN : slots cd = []).
+        { destruct (list_obj_facts _ _ _ _ H2 Hcd eq_refl) as (_ & _ & _ & X). apply X.
+          unfold cd, core, dl, dl0. cbn [p_bit p_size]. destruct (p_bit src); [left; reflexivity|right]. cbn [orb] in EBP. lia. }
+        assert (Pcd : p_seg cd = nsid) by reflexivity.
+        assert (Ocd : p_off cd = doff) by reflexivity.
+        apply x_none.
+        + split; [|exact Cc2]. cbn [w_dst w_set_dst].
+          apply (hinv_data_write (w_dst w2) (objs ++ [cd]) pads m3 cd doff b); auto.
+          * rewrite Pcd. lia.
+          * rewrite Ocd. lia.
+          * rewrite Lb, ROcd. exact Hrd.
+          * intros x Hx. rewrite SN in Hx. destruct Hx.
+        + cbn [w_dst w_set_dst].
+          assert (Kw : keeps (w_dst w2) m3 (fun i k => i = p_seg cd /\ doff <= k < doff + zlen b))
+            by (apply (wrote_keeps _ _ _ _ _ EW); lia).
+          destruct (data_range_avoids (w_dst w2) (objs ++ [cd]) pads cd doff (doff + zlen b) H2 Hcd) as (A1 & A2 & _).
+          * rewrite Ocd. lia.
+          * rewrite Lb, ROcd. exact Hrd.
+          * intros x Hx. rewrite SN in Hx. destruct Hx.
+          * apply (CL_frame (w_dst w2) (objs ++ [cd]) pads m3 (fun i k => i = p_seg cd /\ doff <= k < doff + zlen b) L0 (N ++ [cd]) Kw); auto.
+            all: try (unfold nsegs; rewrite (wrote_nsegs _ _ _ _ _ EW); lia).
+      - (* the elements are copied one by one *)
+        set (T := fun (wa : world) (eo : list Ptr) (ep : list region) =>
+                    tinv wa ((objs ++ [cd]) ++ eo) (pads ++ ep) /\
+                    CL (w_dst wa) ((objs ++ [cd]) ++ eo) (pads ++ ep) L0 ((N ++ [cd]) ++ eo) /\
+                    freshL (lenf (w_dst w2)) eo /\ le_len (lenf (w_dst w2)) (w_dst wa)).
+        assert (TI : forall wa eo ep, T wa eo ep -> I wa).
+        { intros wa eo ep [[Ha _] _]. split; [exact (hi_inv _ _ _ Ha)|].
+          destruct (obj_bounds _ _ _ _ Ha (in_or_app _ _ _ (or_introl Hcd))) as (X & _). unfold cd, core, dl, dl0 in X. cbn [p_seg] in X. exact X. }
+        destruct (fold_threadX I T (iota (Z.to_nat (list_len src))) estep Fe TI)
+          with (wa := w2) (eo := @nil Ptr) (ep := @nil region) (w2 := w3) as (eo1 & ep1 & T3); auto; try lia.
+        + intros wa eo ep i wb _ Ta E Hbb. pose proof Ta as [[Ha Ca] [CLa [Fa La]]].
+          destruct (Fe' wa i wb (TI _ _ _ Ta) E) as [_ Lab].
+          unfold estep in E.
+          destruct (list_struct true (dl doff) i) as [de| |] eqn:ED; cbn [bind] in E; try discriminate.
+          destruct (list_struct true src i) as [se| |] eqn:ESe; cbn [bind] in E; try discriminate.
+          destruct (list_struct_view ((objs ++ [cd]) ++ eo) (dl doff) i de) as [Vde Kde]; auto.
+          { apply in_or_app. left. exact Hcd. }
+          destruct (list_struct_view ((objs ++ [cd]) ++ eo) src i se) as [Vse Kse]; auto.
+          { apply in_or_app. left. apply in_or_app. left. exact Hin. }
+          assert (LEa : le_len L0 (w_dst wa)).
+          { intros k Hk. specialize (LE k Hk). specialize (Lm k Hk). specialize (La k Hk). unfold lenf in La. lia. }
+          destruct (QC wa ((objs ++ [cd]) ++ eo) (pads ++ ep) de se wb L0 ((N ++ [cd]) ++ eo)) as (eo' & ep' & T' & CL' & F'); auto.
+          * split; auto.
+          * intros X. apply Kde. exact X.
+          * intros X. apply Kse. exact X.
+          * exists eo', ep'. rewrite <- !app_assoc in T'. rewrite <- !app_assoc in CL'. destruct T' as [Hb' Cb'].
+            unfold T. rewrite <- !app_assoc.
+            split; [split; [exact Hb'|exact Cb']|]. split; [exact CL'|]. split.
+            -- apply freshL_app; [exact Fa|].
+               apply (freshL_hinv (w_dst wb) (objs ++ [cd] ++ eo ++ eo') (pads ++ ep ++ ep') (lenf (w_dst w2)) (lenf (w_dst wa))); auto.
+               intros x Hx. apply in_or_app. right. apply in_or_app. right. apply in_or_app. right. exact Hx.
+            -- intros k Hk. eapply Z.le_trans; [apply (La k Hk)|apply (Lab k Hk)].
+        + unfold T. rewrite !app_nil_r. split; [split; auto|]. split; [exact CLp|]. split; [intros h []|].
+          intros k Hk. unfold lenf. lia.
+        + unfold B32. lia.
+        + cbn [app] in T3. exists eo1, ep1. destruct T3 as [T3 [CT3 [F3 _]]]. split; [exact T3|]. split; [exact CT3|exact F3]. }
+    destruct T3 as (eo & ep & [H3 Cc3] & CL3 & F3).
+    (* the pointer to the new list *)
+    assert (Hq3 : In q ((0, 0) :: flat_map slots ((objs ++ [cd]) ++ eo))) by (apply slots_app, slots_app; exact Hq).
+    assert (Hcd3 : In cd ((objs ++ [cd]) ++ eo)) by (apply in_or_app; left; exact Hcd).
+    assert (Hnz : p_kind cd = KStruct -> os_isZero (p_size cd) = false) by (unfold cd, core, dl, dl0; cbn [p_kind]; discriminate).
+    assert (Hraw : raw_of cd = Ok raw) by (unfold raw_of, cd, core, dl, dl0; cbn [p_kind]; exact ER).
+    assert (EP' : place w3 (fst q) (snd q) (p_seg cd) (obj_start cd) raw = Ok w').
+    { change (obj_start cd) with (obj_start (dl doff)). rewrite Eos. unfold cd, core, dl, dl0. cbn [p_seg]. exact EP. }
+    destruct (hinv_place_full (w_dst w3) ((objs ++ [cd]) ++ eo) (pads ++ ep) w3 q cd raw w') as (pads' & H' & Rs' & Kp & _ & Pl); auto; try lia.
+    assert (Shq : slot_ok (bm_data (w_dst w')) pads' [cd] q).
+    { right. right. left. exists cd, pads', raw, (fun i => zlen (mem (w_dst w3) i)).
+      split; [left; reflexivity|]. split; [apply incl_refl|]. split; [exact Hraw|]. split; [exact Hnz|exact Pl]. }
+    pose proof (CL_step (w_dst w3) ((objs ++ [cd]) ++ eo) (pads ++ ep) (w_dst w') q L0 ((N ++ [cd]) ++ eo) [] pads' H3 Hq3 Kp N3' CL3) as X.
+    rewrite !app_nil_r in X.
+    exists cd, eo, (ep ++ pads').
+    change (cd :: eo) with ([cd] ++ eo). rewrite !app_assoc.
+    split; [split; [exact H'|exact Cc3]|]. split.
+    { split; [|exists pads'; exact Rs']. change (obj_start cd) with (obj_start (dl doff)). rewrite Eos.
+      unfold cd, core, dl, dl0. cbn [p_seg]. exact AD. }
+    split.
+    { apply X; [|intros s []]. intros _. apply (slot_ok_weaken _ pads' [cd]); auto.
+      - intros x Hx. apply in_or_app. right. exact Hx.
+      - intros x [<-|[]]. apply in_or_app. left. apply in_or_app. right. left. reflexivity. }
+    split.
+    { apply freshL_app.
+      - intros h [<-|[]]. change (obj_start cd) with (obj_start (dl doff)). rewrite Eos. unfold lenf, cd, core, dl, dl0. cbn [p_seg]. lia.
+      - apply (freshL_hinv (w_dst w3) ((objs ++ [cd]) ++ eo) (pads ++ ep) (lenf (w_dst w)) (lenf (w_dst w2))); auto.
+        intros x Hx. apply in_or_app. right. exact Hx. }
+    apply (slot_ok_weaken _ pads' [cd]); auto.
+    - intros x Hx. apply in_or_app. right. exact Hx.
+    - apply incl_refl. }
+  assert (PS : sz <= padToWord sz <= sz + 7) by (unfold padToWord, u32; lia).
+  assert (ShD : forall doff, shape_ok (core (dl0 (p_comp src) doff))).
+  { intros doff. unfold shape_ok in *. unfold core, dl0. cbn [p_kind p_len p_comp p_bit p_size]. rewrite Ek in Sh.
+    unfold wc_of in *. cbn [p_size]. exact Sh. }
+  assert (ObD : forall doff, obj_bytes (core (dl0 (p_comp src) doff)) = sz).
+  { intros doff. unfold obj_bytes, core, dl0. cbn [p_kind]. unfold sz, list_allocSize. cbn [p_valid p_bit p_size p_len p_comp negb].
+    rewrite Hv. reflexivity. }
+  assert (Lm1 : forall i, 0 <= i -> zlen (mem (w_dst w) i) <= zlen (mem m1 i)) by (intros i Hi; apply (proj1 K1); exact Hi).
+  cbn [w_segs w_dst w_set_dst] in HW. rewrite nth_bm_data in HW.
+  destruct (p_comp src) eqn:Hc.
+  - (* composite list: the tag word is copied first *)
+    destruct (Fc eq_refl) as (Esz & K0 & Hoff8).
+    destruct (Tg Ek Hc) as (tag & Etag & Wtag). cbn [core p_len p_size p_seg p_off] in Etag, Wtag.
+    assert (OS : obj_start src = p_off src - 8) by (unfold obj_start; now rewrite Hc).
+    rewrite OS in B2, B3, B4.
+    assert (U8 : u32 (p_off src - 8) = p_off src - 8) by (unfold u32; lia). rewrite U8 in HW.
+    assert (RT : readRawPointer (mem m1 (p_seg src)) (p_off src - 8) = Ok tag).
+    { rewrite <- nth_bm_data. apply read_of_word_at; [|lia]. rewrite <- Wtag.
+      apply (keeps_word (w_dst w) m1 Rnone); auto; try lia; try (intros k _ X; exact X). }
+    rewrite RT in HW. cbn [bind] in HW. unfold lift0 in HW.
+    destruct (writeRawPointer m1 nsid naddr tag) as [m2| |] eqn:EW; cbn [bind] in HW; try discriminate.
+    destruct (addSize naddr 8) as [o|] eqn:EO; [|discriminate]. apply addSize_spec in EO. destruct EO as [-> EO].
+    cbn [bind] in HW. cbv beta iota in HW.
+    match type of HW with context [bind (if p_bit src || _ then ?A else ?B) _] =>
+      destruct (if p_bit src || (PointerCount (p_size src) =? 0) then A else B) as [w3| |] eqn:E3 end;
+      cbn [bind] in HW; try discriminate.
+    cbv beta iota in HW. cbn [p_comp p_off p_seg] in HW.
+    assert (S10 : 0 <= nsid) by lia.
+    destruct (writeRawPointer_keeps _ _ _ _ _ S10 I1 EW) as (K2 & I2 & N2 & _).
+    assert (W2 := EW). apply writeRawPointer_wrote in W2; [|lia].
+    assert (U2 : u32 (sz - 8) = sz - 8) by (unfold u32; lia).
+    assert (U3 : u32 (naddr + 8 - 8) = naddr) by (unfold u32; lia). rewrite U3 in HW.
+    apply (Tail true (w_set_dst (w_set_dst w m1) m2) (naddr + 8) (u32 (sz - 8)) w3); auto; cbv zeta; cbn [w_dst w_set_dst]; try lia.
+    + intros Hb2. split; [|apply cores_snoc; exact C].
+      apply (hinv_alloc_comp (w_dst w) objs pads (fst q) sz m1 nsid naddr tag m2 (core (dl0 true (naddr + 8)))); auto; try reflexivity; try lia.
+    + intros Hb2. destruct (alloc_comp_null (w_dst w) objs pads (fst q) sz m1 nsid naddr tag m2 (core (dl0 true (naddr + 8)))) as [K02 Z2]; auto; try reflexivity; try lia.
+      apply (CL_add_obj (w_dst w)); auto. lia.
+    + unfold I. cbn [w_dst w_set_dst]. split; [exact I2|lia].
+    + intros i Hi. rewrite (wrote_len _ _ _ _ _ i W2 Hi). apply Lm1. exact Hi.
+    + unfold obj_start, dl0. cbn [p_comp p_off]. lia.
+    + unfold obj_start, dl0. cbn [p_comp p_off]. lia.
+    + unfold obj_start, dl0. cbn [p_comp p_off]. lia.
+  - (* plain list *)
+    assert (OS : obj_start src = p_off src) by (unfold obj_start; now rewrite Hc).
+    rewrite OS in B2, B3, B4.
+    cbn [bind] in HW. cbv beta iota in HW.
+    match type of HW with context [bind (if p_bit src || _ then ?A else ?B) _] =>
+      destruct (if p_bit src || (PointerCount (p_size src) =? 0) then A else B) as [w3| |] eqn:E3 end;
+      cbn [bind] in HW; try discriminate.
+    cbv beta iota in HW. cbn [p_comp p_off p_seg] in HW.
+    apply (Tail false (w_set_dst w m1) naddr sz w3); auto; cbv zeta; cbn [w_dst w_set_dst]; try lia.
+    + intros Hb2. split; [|apply cores_snoc; exact C].
+      apply (hinv_alloc_obj (w_dst w) objs pads (fst q) sz m1 nsid naddr (core (dl0 false naddr))); auto; try reflexivity; try lia.
+    + intros Hb2. apply (CL_add_obj (w_dst w)); auto.
+      apply (alloc_obj_null (w_dst w) objs pads (fst q) sz m1 nsid naddr (core (dl0 false naddr))); auto; try reflexivity; try lia.
+    + unfold I. cbn [w_dst w_set_dst]. split; [exact I1|lia].
+    + unfold obj_start, dl0. cbn [p_comp p_off]. lia.
+    + unfold obj_start, dl0. cbn [p_comp p_off]. lia.
+Qed.
